@@ -103,7 +103,7 @@ class Run:
             cf = os.path.join(self.work, label + ".tcases")
             _write(cf, cases)
         if self.model_exe:
-            rc, out = sh([self.model_exe, "model", cf], timeout=1800)
+            rc, out = sh([self.model_exe, "model", cf], timeout=1800, bigstack=True)
             ml = out.split("\n")
             if ml and ml[-1] == "":
                 ml.pop()
@@ -121,7 +121,7 @@ class Run:
             if n != len(cases):
                 cf2 = os.path.join(self.work, label + ".cases.part")
                 _write(cf2, cases[:n])
-            rc, out = sh([self.model_exe, "spec", cf2, of], timeout=1800)
+            rc, out = sh([self.model_exe, "spec", cf2, of], timeout=1800, bigstack=True)
             sl = out.split("\n")
             if sl and sl[-1] == "":
                 sl.pop()
@@ -132,7 +132,7 @@ class Run:
         if self.model_exe and model is not None:
             of = os.path.join(self.work, label + ".model")
             _write(of, model)
-            rc, out = sh([self.model_exe, "spec", cf, of], timeout=1800)
+            rc, out = sh([self.model_exe, "spec", cf, of], timeout=1800, bigstack=True)
             sl = out.split("\n")
             if sl and sl[-1] == "":
                 sl.pop()
